@@ -27,6 +27,7 @@ import (
 	"github.com/vapourismo/knx-go/knx/dpt"
 
 	"verifh/enum/enumlib"
+	"verifh/enum/globlib"
 )
 
 // prototypes aliases the registry's unexported map of prototype instances. It is only read, and only
@@ -1122,7 +1123,12 @@ func (c *ctx) racePass() {
 	}
 	cctx, cancel := context.WithTimeout(context.Background(), limit)
 	defer cancel()
-	cmd := exec.CommandContext(cctx, goTool, "test", "-modfile="+filepath.Join(tmp, "go.mod"), "-tags", "verif", "-race", "-vet=off", "-count=1", "-run", "^TestC19Race$", "./enum/registry")
+	ov, err := globlib.Generate(repo, tmp, "knx/dpt")
+	if err != nil {
+		c.r.Extra("race_detector_pass", "not run: "+err.Error())
+		return
+	}
+	cmd := exec.CommandContext(cctx, goTool, "test", "-modfile="+filepath.Join(tmp, "go.mod"), "-overlay", ov, "-tags", "verif", "-race", "-vet=off", "-count=1", "-run", "^TestC19Race$", "./enum/registry")
 	cmd.Dir = verif
 	cmd.Env = append(os.Environ(), "GOFLAGS=-mod=mod", "GOPROXY=off", "GOSUMDB=off", "GOTOOLCHAIN=local")
 	var outb bytes.Buffer
